@@ -210,3 +210,25 @@ CHECKS["C14"] = dict(
     probes=["push_when_full", "ctor_2N_elements", "ctor_more_than_N_elements", "resize_beyond_N", "assign_over_nonempty", "self_assign", "erase", "ctor_ilist"],
     assumptions=["single caller", "c_str() sources are NUL terminated"],
 )
+
+CHECKS["C15"] = dict(
+    engine="E4-term",
+    level="exploration",
+    mode="asan",
+    harness=["harness/C15_term.cpp", "harness/C15_term_c.cpp", "harness/C15_term_xx.cpp"],
+    igris=["igris/shell/vterm.c", "igris/shell/vtermxx.cpp", "igris/util/numconvert.c"],
+    runs=dict(quick=30000, thorough=1200000),
+    design_ref="DESIGN.md 4.4, 5 (C15), 11 A.1",
+    technique="deterministic simulation of a keyboard task feeding the real terminal automaton byte by byte (with line-noise and interrupt injection), echo stream replayed on a VT100 screen model, reference editor oracle after every key, ASan on exact-size buffers",
+    level_text="seeded key histories (printables, BS, arrows, Delete, CR/LF in all pairings, Ctrl-C, unknown escapes; capacities 2..24, history depth 1..5, lines longer than the buffer, history wrap) "
+               "through vterm.c and vtermxx.cpp: after every key the screen row/cursor reconstructed from the echo stream, the lines handed to execute, SIGINT count and the bounds "
+               "0 <= cursor <= length < capacity are compared with a reference editor. A noise configuration (arbitrary bytes, Ctrl-C inside escapes) checks the safety half only; "
+               "a third world drives the sline API, the igris::sline wrapper and readline_linecpy against a string+cursor model. Sampling, not proof",
+    level_note="trusted: the reference editor and the VT100 model in the harness (written from the key table in the headers); what Up shows behind the oldest stored line and a Ctrl-C between "
+               "CR and LF are not defined by the property and are not generated in the well-formed configuration",
+    rule="one run = one seeded key history for one terminal implementation (C or C++), capacity and history depth; non-trivial = the cursor was strictly inside the line during an edit or a history "
+         "line was recalled (sline world: the line was full and a bulk paste was clamped); distinct = distinct hash of the delivered byte sequence",
+    simtime_units="bytes echoed to the simulated screen",
+    probes=["insert_mid_line", "line_full", "history_full", "crlf_twice", "esc_split_by_noise", "unknown_escape", "recall_with_cursor_inside_line", "bulk_paste_clamped", "getline", "linecpy"],
+    assumptions=["screen wide enough that nothing wraps", "prompt is the default '$ '"],
+)
